@@ -71,7 +71,9 @@ func (o c19Op) String() string {
 	return fmt.Sprintf("unsubscribe(%q)", o.ID)
 }
 
-var c19Events = []map[string]interface{}{{"name": "first", "n": 1}, {"name": "second", "n": 2}}
+// the third event cannot tell its n: the field resolver reports an error (null in the message, an error back from the publish) -
+// a delivered message all the same, and no reason to drop anybody
+var c19Events = []map[string]interface{}{{"name": "first", "n": 1}, {"name": "second", "n": 2}, {"name": "third", "n": fmt.Errorf("n is not known")}}
 
 // ---- reference registry
 
@@ -134,6 +136,11 @@ func (r *refReg) apply(o c19Op) (log []string, cnt int, wantErr bool) {
 			s.Deliveries++
 			msg := map[string]interface{}{}
 			for _, k := range c19Sels[s.Sel].keys {
+				if _, bad := c19Events[o.Event][k].(error); bad {
+					msg[k] = nil
+					wantErr = true
+					continue
+				}
 				msg[k] = world.Canon(c19Events[o.Event][k])
 			}
 			log = append(log, fmt.Sprintf("send:%d:%s", s.Label, toJSON(msg)))
@@ -227,7 +234,21 @@ type c19SubRes struct{ h *c19H }
 type c19EvRes struct{ e map[string]interface{} }
 type C19Ev struct {
 	Name string
-	N    int
+	Num  int
+	Bad  bool
+}
+
+// N backs the field n: a method, so that an event can fail to tell it.
+func (e *C19Ev) N() (interface{}, error) {
+	if e.Bad {
+		return nil, fmt.Errorf("n is not known")
+	}
+	return e.Num, nil
+}
+
+func c19ReflectEvent(i int) *C19Ev {
+	n, ok := c19Events[i]["n"].(int)
+	return &C19Ev{Name: c19Events[i]["name"].(string), Num: n, Bad: !ok}
 }
 
 func (r *c19RootRes) Resolve(field *ggql.Field, args map[string]interface{}) (interface{}, error) {
@@ -238,11 +259,15 @@ func (r *c19RootRes) Resolve(field *ggql.Field, args map[string]interface{}) (in
 }
 func (r *c19SubRes) Resolve(field *ggql.Field, args map[string]interface{}) (interface{}, error) {
 	id, _ := args["id"].(string)
-	r.h.labels++
+	// the label is the number of the subscription request (set by do), not of this call: how often the resolver of a root field
+	// that is written twice is asked is not part of the statement - what is registered and what it then receives is
 	sub := &c19Subscriber{h: r.h, id: id, kind: r.h.nextKind, label: r.h.labels}
 	return ggql.NewSubscription(sub, field, args), nil
 }
 func (e *c19EvRes) Resolve(field *ggql.Field, args map[string]interface{}) (interface{}, error) {
+	if err, bad := e.e[field.Name].(error); bad {
+		return nil, err
+	}
 	return e.e[field.Name], nil
 }
 
@@ -272,9 +297,10 @@ func (h *c19H) do(o c19Op) (log []string, cnt int, gotErr bool, pi *core.PanicIn
 				arg = fmt.Sprintf("(id: %q)", o.Sub.ID)
 			}
 			// the root field is written plainly, inside an inline fragment on the subscription type, inside a conditional inline
-			// fragment, or in a named fragment that is spread - in turn, by the number of subscribe requests this root has seen
+			// fragment, or in a named fragment that is spread, twice, or plainly and through a fragment - in turn, by the number of subscribe requests this root
+			// has seen and by what is subscribed to (so that short histories meet every shape)
 			body, frag := "ev"+arg+" "+sel.text, ""
-			switch h.labels % 4 {
+			switch (h.labels + 2*o.Sub.Sel + len(o.Sub.ID) + o.Sub.Kind) % 6 {
 			case 1:
 				body = "... on Subscription { " + body + " }"
 			case 2:
@@ -282,7 +308,15 @@ func (h *c19H) do(o c19Op) (log []string, cnt int, gotErr bool, pi *core.PanicIn
 			case 3:
 				frag = " fragment FS on Subscription { " + body + " }"
 				body = "...FS"
+			case 4:
+				// the same root field written twice: one response key, one subscription
+				body = body + " " + body
+			case 5:
+				// ... and once plainly, once through a fragment
+				frag = " fragment FS on Subscription { " + body + " }"
+				body = body + " ...FS"
 			}
+			h.labels++
 			q := "subscription { " + body + " }" + frag
 			if sel.vars {
 				q = "subscription S($v: Boolean = true) { " + body + " }" + frag
@@ -319,7 +353,7 @@ func (h *c19H) do(o c19Op) (log []string, cnt int, gotErr bool, pi *core.PanicIn
 		case "publish":
 			var ev interface{} = &c19EvRes{c19Events[o.Event]}
 			if h.reflectE {
-				ev = &C19Ev{Name: c19Events[o.Event]["name"].(string), N: c19Events[o.Event]["n"].(int)}
+				ev = c19ReflectEvent(o.Event)
 			}
 			var err error
 			cnt, err = h.root.AddEvent(o.ID, ev)
@@ -343,7 +377,10 @@ func c19Ops(sels, ids, kinds []int) []c19Op {
 		}
 	}
 	for _, id := range []string{"x", "y", "z"} {
-		for e := 0; e < 2; e++ {
+		for e := 0; e < len(c19Events); e++ {
+			if e == 2 && id != "x" {
+				continue // the event with a failing field is published on x only
+			}
 			ops = append(ops, c19Op{Kind: "publish", ID: id, Event: e})
 		}
 	}
@@ -573,7 +610,7 @@ func runC19(c *core.Ctx) {
 						}
 						var ev interface{} = []interface{}{&c19EvRes{map[string]interface{}{"name": "one", "n": 1}}, &c19EvRes{map[string]interface{}{"name": "two", "n": 2}}}
 						if reflectE {
-							ev = []*C19Ev{{Name: "one", N: 1}, {Name: "two", N: 2}}
+							ev = []*C19Ev{{Name: "one", Num: 1}, {Name: "two", Num: 2}}
 						}
 						cnt, perr = h.root.AddEvent("x", ev)
 					})
